@@ -33,6 +33,11 @@ def repl(design, what):
     return dict(level="model_checking", engine="replication", design=design,
         technique="TLA+ spec Replication.tla model-checked by TLC + recorded walks of N real agents validated event by event by TLC (TraceReplication.tla) with all invariants evaluated on every state; model counter-examples are executed on the real agents",
         text=what, note=REPL_NOTE)
+CHECKS["C10"] = dict(
+   level="model_checking", engine="ingest", design="§6/C10",
+   technique="TLA+ spec Ingest.tla model-checked by TLC + recorded overload runs of the real handle_changes loop validated by TLC (TraceIngest.tla)",
+   text="TLC exhausts every arrival sequence over 2 actors x {complete, two partial chunks, empty}, queue length 2-3, batch cost 1-2, with commits and ticks at any time, and checks that whatever the duplicate cache would suppress is held or still queued / in flight at sequence granularity; the real loop runs with the write connection held by the harness so that batches stall and the queue overflows, every decision it logs (seen / known / queued+dropped, spawn, trim, commit, done) must be the specification's step, and after the overload every offered changeset must be held after three more offers.",
+   note="MAX_CONCURRENT=5 in code vs 2-3 in the exhaustive model; a started batch eventually commits; suppression of empty changesets is recorded finding S2e")
 CHECKS.update({
  "C01": repl("§6/C01", "TLC checks NoInvention / NoLoss (a node that claims a version has every change of it that has not lost globally) / Converged / MergeOfAll on every behaviour of small instances (any delivery order, duplication, re-cut, loss, batching, sync serving, restart); seeded walks over 2-3 real agents are accepted only if every step is the specification's step, and the final drain must reach quiescence with byte-identical tables equal to the merge of all acknowledged transactions."),
  "C03": repl("§6/C03", "TLC checks Atomic (nothing of a remote version visible before the step that applies it), CoveredIsPending and BufferedHaveRecord on the model; real walks with re-cut, overlapping, duplicated chunks from origin and relays in batches are validated step by step, the harness observes the apply trigger exactly when the specification says the version is covered, and the drain must resolve every partial version."),
@@ -79,6 +84,7 @@ def main():
             {"name": "syncneeds", "path": "specs/SyncNeeds.tla + harness/src/syncneeds.rs + lib/prop_c04.py", "serves_properties": ["C04"], "kind_free_text": "TLA+ enumeration + translation-style replay of every input on the real function"},
             {"name": "chunker", "path": "specs/Chunker.tla + specs/ChunkRange.tla + harness/src/chunker.rs + lib/prop_c08.py", "serves_properties": ["C08"], "kind_free_text": "TLA+ model checked by TLC; all behaviours replayed"},
             {"name": "members", "path": "specs/Members.tla + specs/MCMembers.tla + harness/src/members.rs + lib/prop_c18.py", "serves_properties": ["C18"], "kind_free_text": "TLA+ model checked by TLC; all edges replayed"},
+            {"name": "ingest", "path": "specs/Ingest.tla + specs/TraceIngest.tla + harness/src/ingest.rs + lib/prop_c10.py", "serves_properties": ["C10"], "kind_free_text": "TLA+ model checked by TLC; traces of the real loop validated"},
             {"name": "replication", "path": "specs/Replication.tla + specs/TraceReplication.tla + specs/MCReplication*.tla + harness/src/sim.rs + lib/repl.py + lib/repl_check.py", "serves_properties": ["C01", "C03", "C05", "C06", "C07"], "kind_free_text": "TLA+ model checked by TLC; recorded walks of real agents validated against the spec; counter-examples replayed on real agents"},
             {"name": "bookkeeping", "path": "specs/Bookkeeping.tla + specs/MCBookkeeping.tla + harness/src/bk.rs + lib/prop_c02.py", "serves_properties": ["C02"], "kind_free_text": "TLA+ model checked by TLC; all edges replayed on the real crates"},
         ],
